@@ -4,6 +4,7 @@ import (
 	"go/token"
 	"go/types"
 	"strings"
+	"sync"
 
 	"golang.org/x/tools/go/ssa"
 )
@@ -532,13 +533,14 @@ func (a *NilAnalysis) callKills(fn *ssa.Function, site ssa.CallInstruction, f ni
 		}
 	}
 	in, ext := a.p.Callees(fn, site)
+	keep := privateAllocs(fn)
 	for _, callee := range in {
 		sum := a.eff.Sum[callee]
 		if sum == nil {
 			continue
 		}
 		for _, ef := range sum.Effects {
-			a.killLoc(ef.Loc, f)
+			a.killLocP(ef.Loc, f, keep)
 		}
 	}
 	if ext {
@@ -546,7 +548,7 @@ func (a *NilAnalysis) callKills(fn *ssa.Function, site ssa.CallInstruction, f ni
 		ct, known := lookupContract(name)
 		if name == "dynamic" || !known || len(ct.writes) > 0 || ct.ret == retUnknown {
 			if name == "dynamic" || !known || ct.ret == retUnknown {
-				killBy(f, isLocKey)
+				killBy(f, func(k string) bool { return isLocKey(k) && !privateKey(k, keep) })
 				return
 			}
 			// writes into one argument: locations below that argument change
@@ -567,7 +569,12 @@ func (a *NilAnalysis) callKills(fn *ssa.Function, site ssa.CallInstruction, f ni
 	}
 }
 
-func (a *NilAnalysis) killLoc(loc string, f nilFacts) {
+func (a *NilAnalysis) killLoc(loc string, f nilFacts) { a.killLocP(loc, f, nil) }
+
+// killLocP: killLoc, except that locations inside the private local variables named in keep survive the
+// "anything may have been written" cases (no callee can reach a variable whose address never leaves the function).
+func (a *NilAnalysis) killLocP(loc string, f nilFacts, keep map[string]bool) {
+	isLocKey := func(k string) bool { return isLocKey(k) && !privateKey(k, keep) }
 	switch {
 	case strings.HasPrefix(loc, "elem("), strings.HasPrefix(loc, "permute("):
 		killBy(f, func(k string) bool { return strings.HasSuffix(k, "]") || strings.Contains(k, "].") })
@@ -948,4 +955,84 @@ func (a *NilAnalysis) globalLiteralElemFieldNonNilOf(val ssa.Value, field int) b
 	}
 	a.litF[key] = true
 	return true
+}
+
+// privateKey: the location key is a private local variable itself, or a field held directly in a private local
+// struct variable (a:t0.Lines: the slice header, not the elements behind it; nothing reached through a pointer).
+func privateKey(k string, keep map[string]bool) bool {
+	if len(keep) == 0 {
+		return false
+	}
+	k = strings.TrimPrefix(k, "H|")
+	if i := strings.Index(k, "|"); i >= 0 {
+		k = k[:i]
+	}
+	if !(strings.HasPrefix(k, "a:") || strings.HasPrefix(k, "v:")) || strings.ContainsAny(k, "[{*") {
+		return false
+	}
+	parts := strings.Split(k[2:], ".")
+	switch len(parts) {
+	case 1:
+		_, ok := keep[parts[0]]
+		return ok
+	case 2:
+		return keep[parts[0]] // true only for struct-typed variables
+	}
+	return false
+}
+
+var privateAllocsCache sync.Map // *ssa.Function -> map[string]bool
+
+// privateAllocs: names of the local variables of fn whose address (and the address of every part of them) is only
+// used to load from and store to: no call, closure, interface, stored pointer or return value can reach them.
+func privateAllocs(fn *ssa.Function) map[string]bool {
+	if v, ok := privateAllocsCache.Load(fn); ok {
+		return v.(map[string]bool)
+	}
+	out := map[string]bool{}
+	var private func(addr ssa.Value, depth int) bool
+	private = func(addr ssa.Value, depth int) bool {
+		refs := addr.Referrers()
+		if refs == nil || depth > 4 {
+			return false
+		}
+		for _, r := range *refs {
+			switch y := r.(type) {
+			case *ssa.DebugRef:
+			case *ssa.UnOp:
+				if y.Op != token.MUL {
+					return false
+				}
+			case *ssa.Store:
+				if y.Addr != addr {
+					return false // the address itself is stored somewhere
+				}
+			case *ssa.FieldAddr:
+				if !private(y, depth+1) {
+					return false
+				}
+			case *ssa.IndexAddr:
+				if y.X != addr || !private(y, depth+1) {
+					return false
+				}
+			default:
+				return false
+			}
+		}
+		return true
+	}
+	count := map[string]int{}
+	for _, b := range fn.Blocks {
+		for _, ins := range b.Instrs {
+			if al, ok := ins.(*ssa.Alloc); ok {
+				count[al.Name()]++
+				if private(al, 0) {
+					_, isStruct := al.Type().Underlying().(*types.Pointer).Elem().Underlying().(*types.Struct)
+					out[al.Name()] = isStruct
+				}
+			}
+		}
+	}
+	privateAllocsCache.Store(fn, out)
+	return out
 }
